@@ -121,8 +121,8 @@ Ltac break_step :=
   | |- context [if ?b then _ else _] => destruct b eqn:?
   end.
 
-Ltac sset := cbn [issued tokens vip txs approved chal last_totp boot proved spent now fresh minted
-                  set_ghost set_issued set_chal set_boot set_totp mint fst snd cuser clevel ciat cexp].
+Ltac sset := cbn [issued tokens vip txs approved chal last_totp boot proved spent now fresh minted okta opush acks
+                  set_ghost set_issued set_chal set_boot set_totp set_okta mint fst snd cuser clevel ciat cexp].
 Ltac mono s := apply (Inv_mono s); sset; auto using incl_refl, incl_tl, N.le_refl, Z.le_refl; try lia.
 
 Ltac clean :=
@@ -257,11 +257,12 @@ Lemma step_req_Inv k cert fault s o :
 Proof.
   intros Hsel Hk Hu HI Hc. destruct o; cbn [step_req]; try exact HI.
   - (* Login *)
-    break_step; sset; try exact HI. mono s.
-    intros c' Hin. apply in_app_single in Hin. destruct Hin as [Hin| ->]; [now left|right].
-    split; sset; [apply Z.le_refl|].
-    intros g Hg. rewrite has_add, has_zero in Hg. apply N.eqb_eq in Hg. subst g.
-    exists (now s). split; [apply Z.le_refl|now left].
+    break_step; sset; try exact HI;
+    (mono s;
+     intros c' Hin; apply in_app_single in Hin; destruct Hin as [Hin| ->]; [now left|right];
+     split; sset; [apply Z.le_refl|];
+     intros g Hg; rewrite has_add, has_zero in Hg; apply N.eqb_eq in Hg; subst g;
+     exists (now s); split; [apply Z.le_refl|now left]).
   - (* VipOtp *)
     break_step; sset; try exact HI. clean; subst.
     match goal with |- Inv (set_ghost _ (?x :: _) _) => up_inv k s [x] Hsel Hu HI Hc end.
@@ -324,6 +325,14 @@ Proof.
     intros g Hg. rewrite has_add, has_zero in Hg. apply N.eqb_eq in Hg. subst g.
     exists (now s). split; [apply Z.le_refl|now left].
   - (* Tick *) mono s.
+  - (* OktaOtp *)
+    break_step; sset; try exact HI. clean; subst.
+    match goal with |- Inv (set_ghost _ (?x :: _) _) => up_inv k s [x] Hsel Hu HI Hc end.
+  - (* OktaPushStart *) break_step; sset; try exact HI; mono s.
+  - (* OktaApprove *) break_step; sset; try exact HI; mono s.
+  - (* OktaPoll *)
+    break_step; sset; try exact HI;
+    first [ match goal with |- Inv (set_ghost _ (?x :: _) _) => up_inv k s [x] Hsel Hu HI Hc end | mono s ].
 Qed.
 
 Lemma present_cert_Inv s cert : Inv s -> Inv (present_cert s cert) /\ cert_known (present_cert s cert) cert.
@@ -501,8 +510,8 @@ Qed.
 Lemma Inv2_irrelevant s iss p : Inv2 s -> Inv2 (set_ghost (set_issued s iss) p (spent s)).
 Proof. intros H. mono2 s. Qed.
 
-Ltac sset_all := cbn [issued tokens vip txs approved chal last_totp boot proved spent now fresh minted
-                      set_ghost set_issued set_chal set_boot set_totp mint fst snd cuser clevel] in *.
+Ltac sset_all := cbn [issued tokens vip txs approved chal last_totp boot proved spent now fresh minted okta opush acks
+                      set_ghost set_issued set_chal set_boot set_totp set_okta mint fst snd cuser clevel] in *.
 
 (* goal: Inv2 (set_ghost s2 _ (V :: spent s2)) with s2 out of an upgrade of s1; R is the reference
    state the Inv2_use_* lemma speaks about *)
@@ -553,6 +562,19 @@ Proof.
       up_inv2 (set_ghost (set_boot s (upd (boot s) u None) (fresh s)) (proved s) (OtBoot u (bserial b) :: spent s)) Inv2_use_boot end.
   - (* ShowTok *) break_step; sset; try exact HJ; try (mono2 s).
   - (* SendDoc *) break_step; sset; try exact HJ; try (mono2 s).
+  - (* OktaOtp *)
+    break_step; sset; try exact HJ.
+    match goal with HU : upgrade _ _ _ _ _ = (_, _) |- _ =>
+      destruct (upgrade_fields _ _ _ _ _ _ _ HU) as [_ [_ [_ [_ [F5 [F6 [F7 [_ [F9 [_ F11]]]]]]]]]] end.
+    apply (Inv2_mono s); sset; try congruence. rewrite F11. apply N.le_refl.
+  - (* OktaPushStart *) break_step; sset; try exact HJ; try (mono2 s).
+  - (* OktaApprove *) break_step; sset; try exact HJ; try (mono2 s).
+  - (* OktaPoll *)
+    break_step; sset; try exact HJ;
+    first [ match goal with HU : upgrade _ _ _ _ _ = (_, _) |- _ =>
+              destruct (upgrade_fields _ _ _ _ _ _ _ HU) as [_ [_ [_ [_ [F5 [F6 [F7 [_ [F9 [_ F11]]]]]]]]]] end; sset_all;
+            apply (Inv2_mono s); sset; try congruence; rewrite F11; apply N.le_refl
+          | mono2 s ].
 Qed.
 
 Lemma step_Inv2 k s o :
@@ -714,6 +736,10 @@ Proof.
   - (* Bootstrap *) break_step; sset; try exact HK. clean; subst. inv3_up s HK.
   - (* ShowTok *) break_step; sset; exact HK.
   - (* SendDoc *) break_step; sset; exact HK.
+  - (* OktaOtp *) break_step; sset; try exact HK. inv3_up s HK.
+  - (* OktaPushStart *) break_step; sset; exact HK.
+  - (* OktaApprove *) break_step; sset; exact HK.
+  - (* OktaPoll *) break_step; sset; try exact HK. inv3_up s HK.
 Qed.
 
 Lemma step_Inv3 k s o : Inv3 s -> Inv3 (fst (step k s o)).
@@ -835,6 +861,7 @@ Qed.
 Definition about (k : config) (s : st) (o : op) : option N :=
   match o with
   | VipOtp _ (VGood owner) => Some owner
+  | OktaOtp _ (VGood owner) => Some owner
   | Totp _ (TCode owner _) => Some owner
   | Bootstrap _ (BCode owner _) => Some owner
   | U2fFinish _ a => Some (a_owner a)
@@ -848,7 +875,7 @@ Definition about (k : config) (s : st) (o : op) : option N :=
 Definition requester (k : config) (s : st) (cert : option N) (o : op) : option N :=
   let who cs m := match auth k s cert cs m with Some (u, _) => Some u | None => None end in
   match o with
-  | VipOtp cs _ | Totp cs _ | Bootstrap cs _ | U2fFinish cs _ | WaFinish cs _ | Poll cs _ => who cs any_mask
+  | VipOtp cs _ | Totp cs _ | Bootstrap cs _ | U2fFinish cs _ | WaFinish cs _ | Poll cs _ | OktaOtp cs _ => who cs any_mask
   | SendDoc cs _ => who cs (webui k)
   | _ => None
   end.
@@ -894,6 +921,10 @@ Proof.
     destruct (auth k s cert cs (webui k)) as [[w l]|]; [|discriminate]. inversion Hr; subst u'.
     destruct (nth_error (tokens s) tk) as [t|]; [|discriminate]. inversion Ha; subst u.
     rewrite (Hneb (towner t) w) by reflexivity. reflexivity.
+  - (* OktaOtp *)
+    destruct (auth k s cert cs any_mask) as [[w l]|]; [|discriminate]. inversion Hr; subst u'.
+    destruct code; [|discriminate]. inversion Ha; subst u. rewrite (Hneb owner w) by reflexivity.
+    destruct (negb (okta_on k)); [reflexivity|]. destruct (negb (okta_valid s w)); reflexivity.
 Qed.
 
 (* ---------------------------------------------------------------- expired values *)
@@ -915,6 +946,12 @@ Definition expired (k : config) (s : st) (cert : option N) (o : op) : bool :=
       end
   | SendDoc _ tk => match nth_error (tokens s) tk with Some t => (texp t <=? now s)%Z | None => false end
   | Poll _ v => match find_vip_raw s v with Some e => (vexp e <=? now s)%Z | None => false end
+  | OktaOtp cs _ | OktaPushStart cs | OktaPoll cs =>
+      (* the cached answer of the user's last password check (with the Okta state token) past its expiry *)
+      match auth k s cert cs any_mask with
+      | Some (u, _) => match okta s u with Some e => (e <=? now s)%Z | None => false end
+      | None => false
+      end
   | _ => false
   end.
 
@@ -940,6 +977,15 @@ Proof.
   - destruct (auth k s cert cs (webui k)) as [[w l]|]; [|reflexivity].
     destruct (nth_error (tokens s) tk) as [t|]; [|reflexivity]. rewrite He.
     destruct (negb (N.eqb (towner t) w)); reflexivity.
+  - destruct (auth k s cert cs any_mask) as [[w l]|]; [|reflexivity].
+    destruct (negb (okta_on k)); [reflexivity|]. unfold okta_valid.
+    destruct (okta s w); [|discriminate]. rewrite He. reflexivity.
+  - destruct (auth k s cert cs any_mask) as [[w l]|]; [|reflexivity].
+    destruct (negb (okta_on k)); [reflexivity|]. unfold okta_valid.
+    destruct (okta s w); [|discriminate]. rewrite He. reflexivity.
+  - destruct (auth k s cert cs any_mask) as [[w l]|]; [|reflexivity].
+    destruct (negb (okta_on k)); [reflexivity|]. unfold okta_valid.
+    destruct (okta s w); [|discriminate]. rewrite He. reflexivity.
 Qed.
 
 (* ---------------------------------------------------------------- expired session cookies *)
@@ -947,7 +993,7 @@ Qed.
 Definition cookies_of (o : op) : option (list nat) :=
   match o with
   | VipOtp cs _ | PushStart cs _ | Poll cs _ | Totp cs _ | U2fBegin cs | U2fFinish cs _ | WaBegin cs | WaFinish cs _
-  | Bootstrap cs _ | ShowTok cs _ | SendDoc cs _ => Some cs
+  | Bootstrap cs _ | ShowTok cs _ | SendDoc cs _ | OktaOtp cs _ | OktaPushStart cs | OktaPoll cs => Some cs
   | _ => None
   end.
 
@@ -973,7 +1019,7 @@ Definition dev_all : devices := {| has_totp := true; has_u2f := true; has_wa := 
 Definition cfg_with (poll mono expi del : bool) : config :=
   {| devs := fun _ => dev_all; webui := 2 ^ F_U2F; cookie_life := 57600; sel_last := true; upg_last := true;
      vip_life := 120; vip_expiry := true; poll_checks_user := poll;
-     totp_monotone := mono; chal_expiry := expi; chal_delete_wa := del; upgrade_checks_owner := true |}.
+     totp_monotone := mono; chal_expiry := expi; chal_delete_wa := del; upgrade_checks_owner := true; okta_on := false; okta_life := 300 |}.
 
 (* user 2 polls with the push cookie of user 1's approved transaction *)
 Definition w_poll : list op := [Login 1 true; Login 2 true; PushStart [0%nat] 7; Approve 0; Poll [1%nat] 7].
@@ -1019,11 +1065,11 @@ Definition dev_none : devices := {| has_totp := false; has_u2f := false; has_wa 
 Definition cfg_old_upgrade : config :=
   {| devs := fun _ => dev_none; webui := 2 ^ F_U2F; cookie_life := 57600; sel_last := true; upg_last := true;
      vip_life := 120; vip_expiry := true; poll_checks_user := true;
-     totp_monotone := true; chal_expiry := true; chal_delete_wa := true; upgrade_checks_owner := false |}.
+     totp_monotone := true; chal_expiry := true; chal_delete_wa := true; upgrade_checks_owner := false; okta_on := false; okta_life := 300 |}.
 Definition cfg_new_upgrade : config :=
   {| devs := fun _ => dev_none; webui := 2 ^ F_U2F; cookie_life := 57600; sel_last := true; upg_last := true;
      vip_life := 120; vip_expiry := true; poll_checks_user := true;
-     totp_monotone := true; chal_expiry := true; chal_delete_wa := true; upgrade_checks_owner := true |}.
+     totp_monotone := true; chal_expiry := true; chal_delete_wa := true; upgrade_checks_owner := true; okta_on := false; okta_life := 300 |}.
 Definition w_cert : list op :=
   [Login 2 true; IssueOtp 1 3600; Req (Some 1%N) false (Bootstrap [0%nat] (BCode 1 0))].
 Lemma old_cert_cookie :
@@ -1046,7 +1092,7 @@ Qed.
 Definition cfg_first_cookie (lst : bool) : config :=
   {| devs := fun _ => dev_all; webui := 2 ^ F_U2F; cookie_life := 57600; sel_last := true; upg_last := lst;
      vip_life := 120; vip_expiry := true; poll_checks_user := true;
-     totp_monotone := true; chal_expiry := true; chal_delete_wa := true; upgrade_checks_owner := true |}.
+     totp_monotone := true; chal_expiry := true; chal_delete_wa := true; upgrade_checks_owner := true; okta_on := false; okta_life := 300 |}.
 Definition w_first : list op :=
   [Tick 3000; Login 1 true; Totp [0%nat] (TCode 1 100); Tick 3600; Login 1 true;
    U2fBegin [2%nat; 1%nat]; U2fFinish [2%nat; 1%nat] (asrt 1 0 false)].
@@ -1069,7 +1115,7 @@ Qed.
 Definition cfg_vip_expiry (b : bool) : config :=
   {| devs := fun _ => dev_all; webui := 2 ^ F_U2F; cookie_life := 57600; sel_last := true; upg_last := true;
      vip_life := 120; vip_expiry := b; poll_checks_user := true;
-     totp_monotone := true; chal_expiry := true; chal_delete_wa := true; upgrade_checks_owner := true |}.
+     totp_monotone := true; chal_expiry := true; chal_delete_wa := true; upgrade_checks_owner := true; okta_on := false; okta_life := 300 |}.
 Definition w_vip_exp : list op := [Login 1 true; PushStart [0%nat] 7; Approve 0; Tick 300; Poll [0%nat] 7].
 Lemma old_vip_expiry :
   nth 4 (snd (run (cfg_vip_expiry false) init w_vip_exp)) None <> None /\
